@@ -1,6 +1,6 @@
 (* C12 — Receive Maximum flow control.  Statements only; proofs in Conn/IdsQuota.v.
    Nothing else may be added to this file. *)
-From MQ Require Import Base.Prelude Conn.Types Conn.ConnRecord Conn.Step Corr.ConnTrace Conn.IdsQuota Conn.Run Conn.Own Conn.OwnStep Conn.Witness Conn.PairQos Conn.PairQos5 Conn.PairSeq Conn.PairSeq5.
+From MQ Require Import Base.Prelude Conn.Types Conn.ConnRecord Conn.Step Corr.ConnTrace Conn.IdsQuota Conn.Run Conn.Own Conn.OwnStep Conn.Witness Conn.PairQos Conn.PairQos5 Conn.PairSeq Conn.PairSeq5 Conn.PairConc Conn.PairConc5.
 
 (* the reported vacancy is M minus the count, saturating at zero: it never wraps or panics, for every
    M and every count *)
@@ -45,6 +45,19 @@ Theorem C12_vacancy_returns_after_sequence : forall gs gr ps cs cr,
   end.
 Proof. exact vacancy_returns_after_sequence. Qed.
 Print Assumptions C12_vacancy_returns_after_sequence.
+
+(* between two library endpoints the counter IS the number of incomplete exchanges and the quota is never exceeded: in every
+   state of every schedule of publications and deliveries (several exchanges in flight, v5.0, automatic responses, intact
+   links) [inv5] holds — c_send_count = number of exchanges in flight <= the peer's Receive Maximum, the receiver's outstanding
+   set is its handled set — no step is 'Receive Maximum exceeded', and at rest the vacancy is the full maximum *)
+Theorem C12_counter_is_exchanges_in_flight : forall gs gr l s,
+  inv5 gs gr s -> Forall good_act5 l ->
+  exists s1 s2, run_sched5 gs gr s l = Some s1 /\ run_sched5 gs gr s1 (drain5 (measure s1)) = Some s2 /\
+                qsr s2 = [] /\ qrs s2 = [] /\ delivered s2 = published s1 /\
+                vacancy (cs s2) = c_send_max (cs s2) /\ c_publish_recv (cr s2) = [] /\
+                (forall m, c_send_max (cs s1) = Some m -> c_send_count (cs s1) = flight s1).
+Proof. exact concurrent5_exactly_once. Qed.
+Print Assumptions C12_counter_is_exchanges_in_flight.
 
 (* C12_partial: the invariant "publish_send_count = number of incomplete outbound QoS>0 exchanges of
    this connection, including retransmitted stored ones" over all histories is checked by the monitor
